@@ -406,6 +406,17 @@ func deviations() []deviation {
 		l := l
 		add("hdrkey", fmt.Sprintf("hdrkeylen=%d", l), func(tw *tworld, rc *recipe) { rc.hdr.PublicKey = make([]byte, l) })
 	}
+	// self-consistent forged identities as the SOURCE of a first-contact ping: the address is
+	// the digest of a malformed identity (odd key sizes, unknown key types), the header carries
+	// that identity, the frame is raw-signed (by X's key: the signature cannot be valid).
+	for _, fi := range forgedIDs {
+		fi := fi
+		add("identity", "forged-identity/"+fi.note, func(tw *tworld, rc *recipe) {
+			rc.src = fi.ip
+			rc.hdr.AddrHash, rc.hdr.KeyType, rc.hdr.PublicKey = fi.hash, fi.typ, fi.key
+			rc.seal = 1
+		})
+	}
 	for name, raw := range map[string][]byte{"empty": {}, "not-cbor": {0xff, 0xff, 0xff}, "cbor-array": {0x83, 1, 2, 3}, "cbor-int": {0x18, 0x64}, "truncated-map": {0xa7, 0x61, 0x69}, "indef-nesting": {0x9f, 0x9f, 0x9f, 0x9f, 0x9f, 0x9f}} {
 		raw := raw
 		add("hdrraw", "hdrraw="+name, func(tw *tworld, rc *recipe) { rc.hdrRaw = raw })
